@@ -192,11 +192,33 @@ func canonEvents(cn *oidCanon, evs []bsonkit.Doc) string {
 		}
 		dels = nil
 	}
-	for _, e := range evs {
+	for i, e := range evs {
 		switch bsonkit.Get(e, "operationType") {
 		case "drop":
 			flushDels()
-			drops = append(drops, enc(stripEvent(cn, *e)))
+			// the drop events of a dropDatabase come in map order and a later
+			// retention pass may cut the run: collection names of a drop run
+			// that ends in its dropDatabase event are not compared
+			j := i
+			for j < len(evs) && bsonkit.Get(evs[j], "operationType") == "drop" {
+				j++
+			}
+			se := stripEvent(cn, *e)
+			if j < len(evs) && bsonkit.Get(evs[j], "operationType") == "dropDatabase" {
+				for k, f := range se {
+					if ns, ok := f.Value.(bson.D); ok && f.Key == "ns" {
+						nn := make(bson.D, len(ns))
+						copy(nn, ns)
+						for m := range nn {
+							if nn[m].Key == "coll" {
+								nn[m].Value = "*"
+							}
+						}
+						se[k].Value = nn
+					}
+				}
+			}
+			drops = append(drops, enc(se))
 		case "delete":
 			flushDrops()
 			dels = append(dels, e)
